@@ -1,6 +1,6 @@
 SPECIFICATION Spec
 CONSTANTS
-  MaxNames = 4
+  MaxNames = 3
   MaxMentions = 4
   Family = "free"
 INVARIANTS UsedIsASet Emit
